@@ -103,6 +103,8 @@ pub fn expect(s: &Scenario) -> Expect {
             return Expect::ErrorBeforeCallback("store");
         }
         match s.build.kind {
+            // a returned value that cannot be written down is an error after the callback
+            BuildKind::Ok if s.build.launch.as_ref().is_some_and(super::script::LaunchSpec::has_unrepresentable_value) => Expect::CallbackError,
             BuildKind::Ok => Expect::BuildOk,
             _ => Expect::CallbackError,
         }
@@ -232,6 +234,11 @@ pub fn generate(seed: u64) -> Scenario {
         preexisting: Vec::new(),
         platform_present: r.chance(7, 8),
     };
+    if r.chance(1, 12) {
+        if let Some(p) = s.build.launch.as_mut().and_then(|l| l.processes.first_mut()) {
+            p.workdir = Some(super::script::WORKDIR_NOT_UTF8.to_string());
+        }
+    }
     for _ in 0..deviations {
         match r.below(9) {
             0 => {
